@@ -93,7 +93,7 @@ def gen_spec(rng, lay):
 def gen_members(rng, lay, words, depth, budget):
     """fill a region of `words` words with nodes; budget = [remaining flat registers]"""
     nodes = []
-    cur = 0
+    cur = 0 if depth == 0 or words < 3 else rng.choice([0, 1, 1, 2])
     while cur < words and budget[0] > 0:
         if rng.random() < 0.35:
             cur += rng.choice([1, 1, 2, 3, 4])
@@ -112,8 +112,8 @@ def gen_members(rng, lay, words, depth, budget):
                           "spec": gen_spec(rng, lay)})
             budget[0] -= n
             cur += end_w
-        elif r < 0.4 and depth < 2 and room >= 2 and budget[0] >= 1:
-            w = rng.randint(2, min(8, room))
+        elif r < 0.4 and depth < 3 and room >= 2 and budget[0] >= 1:
+            w = rng.randint(2, min(8 if depth else 14, room))
             # align sometimes so that nested offsets are non-trivial either way
             sub = gen_members(rng, lay, w, depth + 1, budget)
             if not sub:
@@ -133,15 +133,91 @@ def gen_members(rng, lay, words, depth, budget):
     return nodes
 
 
-def gen_layout(rng, max_regs=9, aw=None, wrapper=None):
-    aw = aw or rng.choice([5, 6, 6, 7, 8])
-    lay = {"aw": aw, "reset": rng.choice(["low", "low", "high", "none"]), "regclasses": [], "counter": 0,
-           "wrapper": wrapper or "base_entity", "root_words": rng.choice([None, (1 << aw) // 4])}
-    while True:
-        lay["regclasses"], lay["counter"] = [], 0
-        lay["root"] = gen_members(rng, lay, (1 << aw) // 4, 0, [rng.randint(3, max_regs)])
-        if len(flat_regs(lay)) >= 2:
-            break
+def gen_spine(rng, lay, depth_left, budget, decode_only):
+    """members of a register file that contains a chain of `depth_left` further nested register files, every one
+    of them at a NON-ZERO offset inside its parent, with registers / arrays / ranges (decode-only layouts: also
+    reg32.Memory) before and after the nested file at every level.  Returns (members, words)."""
+    nodes = []
+    cur = rng.choice([0, 0, 1, 2])
+
+    def item(force=None):
+        nonlocal cur
+        name = f"m{lay['counter']}"
+        lay["counter"] += 1
+        kind = force or rng.choice(["reg", "reg", "arr", "range"] + (["memory"] if decode_only else []))
+        if kind == "arr" and budget[0] >= 2:
+            n = rng.randint(2, min(3, budget[0]))
+            step = rng.choice([1, 1, 2])
+            end_w = (n - 1) * step + 1 + rng.choice([0, step - 1])
+            nodes.append({"t": "arr", "name": name, "off": cur * 4, "end": (cur + end_w) * 4, "step": step * 4,
+                          "spec": gen_spec(rng, lay)})
+            budget[0] -= n
+            cur += end_w
+        elif kind == "range":
+            w = rng.choice([1, 2, 3, 3, 5, 6])      # odd sizes at odd word offsets: the slow path of _contains_addr_
+            nodes.append({"t": "range", "name": name, "off": cur * 4, "words": w, "tag": rng.randrange(1 << 32),
+                          "access": rng.choice(["rw", "rw", "ro", "wo"])})
+            budget[0] -= 1
+            cur += w
+        elif kind == "memory":
+            w = rng.choice([1, 2, 3, 4, 5, 7])
+            nodes.append({"t": "memory", "name": name, "off": cur * 4, "words": w})
+            budget[0] -= 1
+            cur += w
+        else:
+            nodes.append({"t": "reg", "name": name, "off": cur * 4, "spec": gen_spec(rng, lay)})
+            budget[0] -= 1
+            cur += 1
+        cur += rng.choice([0, 0, 1])
+
+    before = rng.randint(0, 1) if depth_left else 0
+    for _ in range(before):
+        if budget[0] > depth_left + 1:
+            item()
+    if depth_left:
+        if cur == 0:
+            cur = rng.randint(1, 3)
+        sub, w = gen_spine(rng, lay, depth_left - 1, budget, decode_only)
+        name = f"m{lay['counter']}"
+        lay["counter"] += 1
+        w += rng.choice([0, 0, 1])
+        nodes.append({"t": "file", "name": name, "off": cur * 4, "words": w, "members": sub})
+        cur += w + rng.choice([0, 1])
+        if budget[0] > 0 and rng.random() < 0.5:
+            item()
+    else:
+        item("reg")
+        if budget[0] >= 2:
+            item("arr")
+        elif budget[0] >= 1:
+            item()
+    return nodes, cur
+
+
+def gen_layout(rng, max_regs=9, aw=None, wrapper=None, deep=None, decode_only=False):
+    """deep = number of register files nested inside each other under the root (3 or 4): the spine generator;
+    None = the general generator (nesting up to 3, offsets often zero)"""
+    lay = {"reset": rng.choice(["low", "low", "high", "none"]), "regclasses": [], "counter": 0,
+           "wrapper": wrapper or "base_entity"}
+    if deep:
+        while True:
+            lay["regclasses"], lay["counter"] = [], 0
+            members, words = gen_spine(rng, lay, deep, [rng.randint(4, max_regs)], decode_only)
+            if words * 4 <= 512:
+                break
+        aw = max(6, (words * 4 - 1).bit_length())
+        lay["aw"] = aw
+        lay["root_words"] = rng.choice([None, (1 << aw) // 4])
+        lay["root"] = members
+    else:
+        aw = aw or rng.choice([5, 6, 6, 7, 8])
+        lay["aw"] = aw
+        lay["root_words"] = rng.choice([None, (1 << aw) // 4])
+        while True:
+            lay["regclasses"], lay["counter"] = [], 0
+            lay["root"] = gen_members(rng, lay, (1 << aw) // 4, 0, [rng.randint(3, max_regs)])
+            if len(flat_regs(lay)) >= 2:
+                break
     # drop register classes that ended up unused, renumber
     used = sorted({fr["spec"]["cls"] for fr in flat_regs(lay) if fr["spec"]["k"] == "register"})
     remap = {c: i for i, c in enumerate(used)}
@@ -179,6 +255,10 @@ def flat_regs(lay):
             elif n["t"] == "range":
                 out.append({"path": f"{path}.{n['name']}", "offset": base + n["off"], "bytes": 4 * n["words"],
                             "spec": {"k": "range", "tag": n["tag"], "access": n["access"]}, "chain": list(chain),
+                            "off": n["off"], "n": 1, "step": 0, "first": True, "node": n})
+            elif n["t"] == "memory":
+                out.append({"path": f"{path}.{n['name']}", "offset": base + n["off"], "bytes": 4 * n["words"],
+                            "spec": {"k": "range", "tag": 0, "access": "rw", "memory": True}, "chain": list(chain),
                             "off": n["off"], "n": 1, "step": 0, "first": True, "node": n})
             else:
                 walk(n["members"], chain + [n["off"]], f"{path}.{n['name']}")
@@ -290,6 +370,8 @@ def gen_source(lay):
                 out.append(f"    {n['name']}: {spec_type(lay, n['spec'])}[{n['off']}]")
             elif n["t"] == "arr":
                 out.append(f"    {n['name']}: reg32.Array[{spec_type(lay, n['spec'])}, {n['off']}:{n['end']}:{n['step']}]")
+            elif n["t"] == "memory":
+                out.append(f"    {n['name']}: reg32.Memory[{n['off']}:{n['off'] + 4 * n['words']}]")
             elif n["t"] == "range":
                 cname = f"Rng{rng_count[0]}"
                 rng_count[0] += 1
@@ -342,6 +424,8 @@ def gen_source(lay):
             conc.append(f"e.o_{j} <<= {p}.raw")
         elif sp["k"] == "memword":
             conc.append(f"e.o_{j} <<= {p}.raw")
+        elif sp["k"] == "range" and sp.get("memory"):
+            pass    # decode-only layouts (never compiled)
         elif sp["k"] == "range":
             ports.append(f"    a_{j} = Port.output(Unsigned[{aw}])")
             conc.append(f"e.o_{j} <<= {p}.last_data")
@@ -904,9 +988,21 @@ def report_failure(ctx, vhdl, lay, scn, src, origin):
         clock = k
     else:
         return False   # not reproducible after shrinking (should not happen)
+    # layout-level root cause: does the plain-Python decode of this layout already disagree with the declaration?
+    root_cause = None
+    try:
+        dl = strip_flags(json.loads(json.dumps(lay)))
+        dl["wrapper"] = "base_entity"
+        dres = decode_check([dl])[0]
+        if dres is not None and dres["kind"] == "offset":
+            root_cause = offset_diagnosis(dl, dres)
+        elif dres is not None and dres["kind"] == "rejected":
+            root_cause = (f"layout-rejected:depth{max_depth(dl)}", f"_flatten_ rejects the layout: {dres['error']}")
+    except InfraError:
+        pass
     # does a known legacy behaviour explain the whole trace?
     explained = None
-    if k is not None and not res["errors"]:
+    if root_cause is None and k is not None and not res["errors"]:
         for knobs in KNOB_SETS:
             try:
                 if first_diff(res["rows"], model_trace(lay, res["toks"], knobs)) is None:
@@ -914,7 +1010,10 @@ def report_failure(ctx, vhdl, lay, scn, src, origin):
                     break
             except InfraError:
                 pass
-    if explained:
+    if root_cause is not None:
+        signature = root_cause[0]
+        text = f"{root_cause[1]} [witness: {scenario_summary(small)}; {text}]"
+    elif explained:
         signature = "legacy:" + "+".join(explained)
         text = "; ".join(KNOB_TEXT[x] for x in explained) + f" [witness: {scenario_summary(small)}; {text}]"
     else:
@@ -974,55 +1073,140 @@ def decode_task(lay):
         return {"ok": True, "rejected": f"AssertionError: {str(e)[:200]}"}
 
 
-def decode_tie(ctx, n_layouts):
-    rng = ctx.rng
-    lays = [strip_flags(gen_layout(rng, max_regs=10)) for _ in range(n_layouts)]
+def max_depth(lay):
+    return max((len(fr["chain"]) for fr in flat_regs(lay)), default=0)
+
+
+def decode_check(lays):
+    """for every layout: None when the real offsets and the real dispatch on every address agree with the
+    model (whose absolute addresses are the sums of the DECLARED relative offsets), else a description"""
     real = fork_map(decode_task, lays, fresh=True, batch=8)
     reqs = []
     for lay in lays:
         ents = " ".join(str(x) for x in lean_entries(lay))
         reqs += [f"flat {ents}", f"decode {lay['aw']} {ents}"]
     ans = lean_io.query("C20", reqs)
-    bad = 0
+    out = []
     for i, (lay, r) in enumerate(zip(lays, real)):
         frs = flat_regs(lay)
-        ctx.case(key=("decode", json.dumps(lay, sort_keys=True)), nontrivial=any(fr["chain"] for fr in frs) or any(fr["n"] > 1 for fr in frs),
-                 kind="decode-layout", sample=None)
         if r[0] != "ok":
             raise InfraError("decode task failed: " + r[1])
         r = r[1]
         m_off, m_tab = ans[2 * i], ans[2 * i + 1]
         if "bad-op" in (m_off, m_tab):
             raise InfraError("C20 model driver rejected a flat/decode request")
-        has_arr_in_file = any(fr["n"] > 1 and fr["chain"] for fr in frs)
-        has_access = any(reg_desc(lay, fr)["readable"] == 0 or reg_desc(lay, fr)["writable"] == 0 for fr in frs)
+        exp_off = [int(x) for x in m_off.split(" ")] if m_off else []
+        # two independent computations of the declared absolute addresses: the Lean model (chain sums) and the
+        # harness walk over its own layout description
+        if exp_off != [fr["offset"] for fr in frs]:
+            raise InfraError("C20: model and harness disagree about the declared addresses of a layout")
         if "rejected" in r:
-            bad += 1
-            sig = "legacy:array" if has_arr_in_file else "layout-rejected"
-            ctx.report(sig, (KNOB_TEXT["array"] + " [" if has_arr_in_file else "[") + f"a legal layout is rejected by _flatten_: {r['rejected']}]",
-                       {"origin": "decode-tie", "layout": lay, "design_source": gen_source(lay), "error": r["rejected"]},
-                       no_failing_input=not has_arr_in_file)
-            continue
-        exp_off = [int(x) for x in m_off.split(" ")]
-        if r["offsets"] != exp_off:
-            bad += 1
+            out.append({"kind": "rejected", "error": r["rejected"]})
+        elif r["offsets"] != exp_off:
             j = next(j for j, (a, b) in enumerate(zip(r["offsets"], exp_off)) if a != b)
-            known = has_arr_in_file and frs[j]["n"] > 1 and frs[j]["chain"] and r["offsets"][j] == frs[j]["off"] + (j - next(q for q, f in enumerate(frs) if f["node"] is frs[j]["node"])) * frs[j]["step"]
-            sig = "legacy:array" if known else f"offset:{frs[j]['node']['t']}:depth{len(frs[j]['chain'])}"
-            ctx.report(sig, (KNOB_TEXT["array"] + " " if known else "") +
-                       f"[register {frs[j]['path']} sits at {r['offsets'][j]:#x}, its parents' offsets + own offset give {exp_off[j]:#x}]",
-                       {"origin": "decode-tie", "layout": lay, "design_source": gen_source(lay), "register": frs[j]["path"],
-                        "expected": exp_off[j], "observed": r["offsets"][j]})
-            continue
-        if r["table"] != m_tab:
-            bad += 1
+            out.append({"kind": "offset", "j": j, "observed": r["offsets"][j], "expected": exp_off[j]})
+        elif r["table"] != m_tab:
             ra, mo = r["table"].split(" "), m_tab.split(" ")
             a = next(a for a in range(0, len(ra)) if ra[a] != mo[a]) // 2
-            obs, exp = " ".join(ra[2 * a: 2 * a + 2]), " ".join(mo[2 * a: 2 * a + 2])
-            # legacy explanation: access flags ignored
+            out.append({"kind": "table", "addr": a, "observed": " ".join(ra[2 * a: 2 * a + 2]), "expected": " ".join(mo[2 * a: 2 * a + 2]),
+                        "real_table": r["table"]})
+        else:
+            out.append(None)
+    return out
+
+
+def shrink_layout_decode(lay, kind, budget=30):
+    """greedy removal of nodes (at any depth) while the decode tie still fails in the same way"""
+    lay = json.loads(json.dumps(lay))
+
+    def paths(nodes, prefix=()):
+        for k, n in enumerate(nodes):
+            yield prefix + (k,)
+            if n["t"] == "file":
+                yield from paths(n["members"], prefix + (k,))
+
+    def remove(l, path):
+        l2 = json.loads(json.dumps(l))
+        nodes = l2["root"]
+        for k in path[:-1]:
+            nodes = nodes[k]["members"]
+        del nodes[path[-1]]
+        return l2
+
+    def valid(l):
+        def ok(nodes):
+            return all(n["t"] != "file" or (n["members"] and ok(n["members"])) for n in nodes)
+        return len(flat_regs(l)) >= 1 and ok(l["root"])
+
+    changed = True
+    while changed and budget > 0:
+        changed = False
+        cands = [remove(lay, pth) for pth in sorted(paths(lay["root"]), key=len)]
+        cands = [c for c in cands if valid(c)][:budget]
+        if not cands:
+            break
+        budget -= len(cands)
+        res = decode_check(cands)
+        for c, r in zip(cands, res):
+            if r is not None and r["kind"] == kind:
+                lay = c
+                changed = True
+                break
+    used = sorted({fr["spec"]["cls"] for fr in flat_regs(lay) if fr["spec"]["k"] == "register"})
+    return lay
+
+
+def offset_diagnosis(lay, res):
+    frs = flat_regs(lay)
+    j = res["j"]
+    first = next(q for q, f in enumerate(frs) if f["node"] is frs[j]["node"])
+    known = frs[j]["n"] > 1 and frs[j]["chain"] and res["observed"] == frs[j]["off"] + (j - first) * frs[j]["step"]
+    sig = "legacy:array" if known else f"offset:{frs[j]['node']['t']}:depth{len(frs[j]['chain'])}"
+    text = (KNOB_TEXT["array"] + " " if known else "") + \
+        f"[register {frs[j]['path']} (nesting depth {len(frs[j]['chain'])}, enclosing offsets {frs[j]['chain']}, own offset {frs[j]['off']}) " \
+        f"decodes at {res['observed']:#x}; the declared offsets add up to {res['expected']:#x}: accesses to the declared address miss it, " \
+        f"accesses to {res['observed']:#x} hit it]"
+    return sig, text
+
+
+def decode_tie(ctx, n_layouts):
+    rng = ctx.rng
+    lays = []
+    for i in range(n_layouts):
+        if i % 2:
+            lays.append(strip_flags(gen_layout(rng, max_regs=10, deep=rng.choice([3, 3, 4]), decode_only=True)))
+        else:
+            lays.append(strip_flags(gen_layout(rng, max_regs=10)))
+    results = decode_check(lays)
+    bad = 0
+    for lay, res in zip(lays, results):
+        frs = flat_regs(lay)
+        ctx.case(key=("decode", json.dumps(lay, sort_keys=True)), nontrivial=any(fr["chain"] for fr in frs) or any(fr["n"] > 1 for fr in frs),
+                 kind=f"decode-layout:depth{max_depth(lay)}", sample=None)
+        ctx.dist["decode-addresses"] += 1 << lay["aw"]
+        if res is None:
+            continue
+        bad += 1
+        if bad > 3:
+            continue
+        lay = shrink_layout_decode(lay, res["kind"], budget=ctx.scale(30, 60))
+        res = decode_check([lay])[0]
+        frs = flat_regs(lay)
+        regs_info = [{"path": fr["path"], "declared_address": fr["offset"], "bytes": fr["bytes"], "enclosing_offsets": fr["chain"]} for fr in frs]
+        has_access = any(reg_desc(lay, fr)["readable"] == 0 or reg_desc(lay, fr)["writable"] == 0 for fr in frs)
+        if res["kind"] == "rejected":
+            ctx.report(f"layout-rejected:depth{max_depth(lay)}", f"a legal register-map layout (nesting depth {max_depth(lay)}) is rejected by _flatten_: {res['error']}",
+                       {"origin": "decode-tie", "layout": lay, "design_source": gen_source(lay), "error": res["error"], "registers": regs_info})
+        elif res["kind"] == "offset":
+            sig, text = offset_diagnosis(lay, res)
+            ctx.report(sig, text,
+                       {"origin": "decode-tie", "layout": lay, "design_source": gen_source(lay), "register": frs[res["j"]]["path"],
+                        "expected": res["expected"], "observed": res["observed"], "registers": regs_info})
+        else:
+            a, obs, exp = res["addr"], res["observed"], res["expected"]
             lay2 = legacy_layout(lay, ("access",))
             m2 = lean_io.query("C20", [f"decode {lay['aw']} " + " ".join(str(x) for x in lean_entries(lay2))])[0]
-            if has_access and m2 == r["table"]:
+            if has_access and m2 == res["real_table"]:
                 sig, pre = "legacy:access", KNOB_TEXT["access"] + " "
             else:
                 hit = [x for x in (obs + " " + exp).replace("r", "").replace("w", "").split(" ") if x not in ("-", "?")]
@@ -1032,8 +1216,9 @@ def decode_tie(ctx, n_layouts):
             ctx.report(sig, pre + f"[address {a:#x}: the real dispatch selects `{obs}` (r=read w=write, index into the register list), "
                        f"offset <= addr < offset+count selects `{exp}`]",
                        {"origin": "decode-tie", "layout": lay, "design_source": gen_source(lay), "address": a, "expected": exp, "observed": obs,
-                        "registers": [{"path": fr["path"], "offset": fr["offset"], "bytes": fr["bytes"]} for fr in frs]})
-    ctx.obligation("correspondence: real _flatten_ offsets and _contains_addr_ dispatch = model decode on every address of every generated layout",
+                        "registers": regs_info})
+    ctx.obligation("correspondence: real _flatten_ offsets and _contains_addr_ dispatch = model decode (declared absolute addresses) on every "
+                   "address of every generated layout (nesting depth up to 4, non-zero offsets at every level)",
                    bad == 0, detail=f"{len(lays)} layouts, {bad} differing")
 
 
@@ -1066,7 +1251,18 @@ def probes():
               root=[{"t": "reg", "name": "m0", "off": 0, "spec": {"k": "register", "cls": 0}},
                     {"t": "reg", "name": "m1", "off": 4, "spec": {"k": "register", "cls": 1}}])
     s3 = {"start_reset": 1, "phases": [_phase(writes=[(0, 0x1234, 15), (4, 0x5678, 15)], reads=[0, 4])]}
-    return [("strobes", p1, s1), ("array-in-file", p2, s2), ("access", p3, s3)]
+    mw = {"k": "memword", "variant": "MemWord", "default": 0}
+    p4 = dict(base, regclasses=[], root=[
+        {"t": "reg", "name": "m0", "off": 0, "spec": dict(mw)},
+        {"t": "file", "name": "m1", "off": 16, "words": 7, "members": [
+            {"t": "file", "name": "m2", "off": 8, "words": 5, "members": [
+                {"t": "file", "name": "m3", "off": 4, "words": 4, "members": [
+                    {"t": "reg", "name": "m4", "off": 4, "spec": dict(mw)},
+                    {"t": "arr", "name": "m5", "off": 8, "end": 16, "step": 4, "spec": dict(mw)}]}]}]}])
+    # declared: m4 @ 16+8+4+4 = 32, m5[0] @ 36, m5[1] @ 40; 12 / 16 / 20 / 24 are unmapped
+    s4 = {"start_reset": 1, "phases": [_phase(writes=[(32, 0x11111111, 15), (40, 0x22222222, 15), (16, 0x33333333, 15), (12, 0x44444444, 15)],
+                                              reads=[32, 36, 40, 16, 12, 20, 24])]}
+    return [("strobes", p1, s1), ("array-in-file", p2, s2), ("access", p3, s3), ("deep-nesting", p4, s4)]
 
 
 # ------------------------------------------------------------------------------------------------
@@ -1079,7 +1275,7 @@ def _sim_task(t):
 
 def run(ctx: Ctx):
     rng = ctx.rng
-    ctx.rule = ("register-map layouts generated as trees (registers, arrays, nested register files up to depth 2, address ranges; "
+    ctx.rule = ("register-map layouts generated as trees (registers, arrays, nested register files up to depth 4 with non-zero offsets at every level (spine generator), address ranges at unaligned word offsets, reg32.Memory in the decode tie; "
                 "Word/MemWord variants, Register classes with Field/UField/SField/MemField/MemUField/MemSField/FlagField of random "
                 "position and width, PushOnNotify/FlagOnNotify Read/Write, readonly/writeonly, reset polarity / no reset, "
                 "base_entity+connect_addr_map or addr_map_entity); per layout several scenarios of a pre-drawn protocol-conforming "
@@ -1096,7 +1292,8 @@ def run(ctx: Ctx):
     lays = [(f"probe:{name}", lay, [scn]) for name, lay, scn in probes()]
     for i in range(n_lay):
         wrapper = "addr_map_entity" if i % 6 == 5 else "base_entity"
-        lay = gen_layout(rng, max_regs=ctx.scale(7, 9), wrapper=wrapper)
+        deep = rng.choice([3, 3, 4]) if i % 3 == 1 else None
+        lay = gen_layout(rng, max_regs=ctx.scale(7, 9), wrapper=wrapper, deep=deep)
         if wrapper == "addr_map_entity":
             lay["root_words"] = None
             for rc in lay["regclasses"]:
@@ -1116,12 +1313,11 @@ def run(ctx: Ctx):
         if not c["ok"]:
             rejected += 1
             frs = flat_regs(lay)
-            arr = any(fr["n"] > 1 and fr["chain"] for fr in frs)
             if c["errtype"] == "HarnessError":
                 raise InfraError("compile task failed: " + c["err"])
-            ctx.report("legacy:array" if arr and c["errtype"] == "AssertionError" else f"compile:{c['errtype']}",
-                       (KNOB_TEXT["array"] + " " if arr else "") + f"[a legal register map is rejected by the compiler: {c['errtype']}: {c['err'][-200:]}]",
-                       {"origin": origin, "layout": lay, "design_source": src, "error": c}, no_failing_input=not arr)
+            ctx.report(f"compile:{c['errtype']}:depth{max_depth(lay)}",
+                       f"[a legal register map (nesting depth {max_depth(lay)}) is rejected by the compiler: {c['errtype']}: {c['err'][-200:]}]",
+                       {"origin": origin, "layout": lay, "design_source": src, "error": c}, no_failing_input=True)
             continue
         for scn in scns:
             tasks.append((c["vhdl"], lay, scn))
@@ -1161,7 +1357,7 @@ def run(ctx: Ctx):
             mism += 1
         if res["errors"] or k is not None:
             n_rep = reported_layouts.get(origin, 0)
-            if n_rep < 2 and sum(reported_layouts.values()) < ctx.scale(8, 16):
+            if n_rep < 2 and sum(reported_layouts.values()) < ctx.scale(5, 12):
                 reported_layouts[origin] = n_rep + 1
                 report_failure(ctx, t[0], lay, scn, src, origin)
     ctx.obligation("correspondence: emitted AXI4-Lite register-map designs = Lean model C20.step per clock (five channels, register-backed "
